@@ -216,7 +216,8 @@ def queries_for(pid):
     name = lambda i: N[i]
     size = lambda i: S[i]
     if pid == 'C02':
-        return [('name from R0 where size between 7 and 12', lambda v, k: _rows([i for i in v if 7 <= S[i] <= 12], [name]), False),
+        return [('name from R0 where size < 7.5 and size > 6.5 or size = 12.5', lambda v, k: _rows([i for i in v if 6.5 < S[i] < 7.5 or S[i] == 12.5], [name]), False),   # a fraction is not cut
+                ('name from R0 where size between 7 and 12', lambda v, k: _rows([i for i in v if 7 <= S[i] <= 12], [name]), False),
                 ("name from R0 where name === 'bb' or size >= 300", lambda v, k: _rows([i for i in v if N[i] == 'bb' or S[i] >= 300], [name]), False),
                 ("name, '' from R0 where name !== '' and not name === ''", lambda v, k: [[N[i], ''] for i in v], False)]
     if pid == 'C03':
